@@ -51,6 +51,8 @@ def prepare(prop, tier, cfg, keep=False):
         # goroutine-start seams
         for pkgdir in world.get('gostart', []):
             sh([os.path.join(bindir, 'simprep'), '-mode', 'gostart', os.path.join(src, pkgdir)], cwd=src, env=env)
+        for pkgdir, renames in world.get('callrename', []):
+            sh([os.path.join(bindir, 'simprep'), '-mode', 'callrename', '-renames', renames, os.path.join(src, pkgdir)], cwd=src, env=env)
         for pkgdir in world.get('httpserve', []):
             sh([os.path.join(bindir, 'simprep'), '-mode', 'httpserve', os.path.join(src, pkgdir)], cwd=src, env=env)
         for pkgdir in world.get('closeyield', []):
